@@ -61,7 +61,9 @@ class InternalCompiler(Compiler):
             # computed using its old value are not valid anymore
             self.expqmap.remove_referencing(sym)
             self.expqmap[sym] = iret
-            qc.map_qubit(sym, iret, promote=not is_temp)
+            # (temp symbols are promoted too: they can't be uncomputed later, when the
+            # ancillas they have been computed from are already uncomputed and reused)
+            qc.map_qubit(sym, iret, promote=True)
 
             # 2.3 Remove all the temp qubits
             self.expqmap.remove(qc.uncompute())
